@@ -124,6 +124,7 @@ impl Ctx {
             crate_info.push(ci);
             let map = guard(|| catalogue::build_size_map(s)).ok();
             match &map {
+                Some(m) if m.roles_agree_with_template && !m.tag_roundtrip_ok => notes.push(format!("generic bit type round trip of {} fails", s.name)),
                 Some(m) if m.roles_agree_with_template => {}
                 Some(_) => notes.push(format!("pixel roles of {} disagree with the independent template", s.name)),
                 None => notes.push(format!("building the pixel map of {} panicked", s.name)),
@@ -977,7 +978,29 @@ fn consumer_data(data: &[u8], o: &mut Outcome, panicked: &mut bool) -> Option<Re
 // ---------------- C08 oracles ----------------
 
 fn c08_forward(ctx: &Ctx, s: &SizeInfo, content_cw: &[u8], bits: &[bool], w: usize, h: usize, o: &mut Outcome) {
-    let _ = ctx;
+    // the same laws for the generic bit type (established once per size at start-up with a tagged matrix)
+    match ctx.maps[s.idx].as_ref() {
+        Some(map) => {
+            if !map.roles_agree_with_template {
+                o.violations.push(Violation {
+                    prop: "C08",
+                    class: "render_fixed_pattern_generic_bit_type".into(),
+                    detail: format!("{}: rendering a MatrixMap of a non-bool bit type does not put the fixed pattern where the standard says", s.name),
+                });
+            } else if !map.tag_roundtrip_ok {
+                o.violations.push(Violation {
+                    prop: "C08",
+                    class: "roundtrip_generic_bit_type".into(),
+                    detail: format!("{}: parsing the rendering of a MatrixMap of a non-bool bit type does not return the same content and size", s.name),
+                });
+            }
+        }
+        None => o.violations.push(Violation {
+            prop: "C08",
+            class: "render_panic_generic_bit_type".into(),
+            detail: format!("{}: rendering a MatrixMap of a non-bool bit type panicked", s.name),
+        }),
+    }
     if w != s.cols || h != s.rows || bits.len() != s.rows * s.cols {
         o.violations.push(Violation {
             prop: "C08",
